@@ -34,6 +34,13 @@ int main(int argc, char **argv) {
     std::string s;
     for (int x : u) s += std::to_string(x) + ",";
     line("R tree_union" + p + s);
+    // a merge that is associative but NOT commutative exposes the order in which the tree merges: compared with
+    // Tree.tree_all_reduce (list append) evaluated in Coq
+    auto ord = world.all_reduce(mine, [](const std::vector<int> &x, const std::vector<int> &y) {
+      std::vector<int> o(x); o.insert(o.end(), y.begin(), y.end()); return o; });
+    std::string so;
+    for (int x : ord) so += std::to_string(x) + ",";
+    line("R tree_order" + p + so);
     std::string str = std::string(1, (char)('a' + me % 26));
     auto cat = world.all_reduce(str, [](const std::string &x, const std::string &y) { std::string o = x + y; std::sort(o.begin(), o.end()); return o; });
     line("R tree_strcat" + p + cat);
